@@ -47,6 +47,9 @@ var gbyCache = gbyTable{
 }
 
 func runC17(p *Prog, r *Report) {
+	if want("C17.12") {
+		ruleNodeRefOwned(p, r, "C17.12")
+	}
 	if want("C17.11") {
 		// (shared with C07) handles are released on every path
 		ruleAcquiredHandlesSettled(p, r, "C17.11")
